@@ -2,6 +2,7 @@ package rt
 
 import (
 	"encoding"
+	"encoding/binary"
 	"hash"
 
 	"github.com/emmansun/gmsm/kdf"
@@ -57,6 +58,14 @@ func init() {
 					return &Mismatch{Step: i, Kind: "errmismatch", Got: "error: " + err.Error(), Exp: "ok"}
 				}
 				snap = b
+			case "addlen":
+				// the exported state ends with the 64-bit byte count: stand in for a stream that is `delta` bytes longer
+				if len(snap) < 8 {
+					panic("harness: sm3hash: addlen without a snapshot")
+				}
+				n := binary.BigEndian.Uint64(snap[len(snap)-8:]) + binary.BigEndian.Uint64(st.Hex("delta"))
+				snap = append([]byte(nil), snap...)
+				binary.BigEndian.PutUint64(snap[len(snap)-8:], n)
 			case "unmarshal":
 				if err := objs[st.Int("o")].(encoding.BinaryUnmarshaler).UnmarshalBinary(snap); err != nil {
 					return &Mismatch{Step: i, Kind: "errmismatch", Got: "error: " + err.Error(), Exp: "ok"}
